@@ -1,4 +1,5 @@
 import TracklibVerif.Lemmas.SplitSeg
+import TracklibVerif.Lemmas.SplitUid
 /-! # C11 — splitting on a marker partitions the track; markers reflect the thresholds
 
 Property theorems only (helper lemmas are in `Lemmas/Split*.lean`). The models are in `Model/Split.lean`:
@@ -123,6 +124,21 @@ theorem split_limit_pos {α : Type} [LT α] [LE α] [DecidableLT α] [DecidableL
   have hk : (fun p : List β => limitKeepTail limit (length p)) = fun p => decide (limit ≤ length p) := by
     funext p; simp [limitKeepTail, hne, hpos]
   rw [hs, hk, ← List.filter_append, dropLast_append_getLast?]
+
+/-- T5 (uids): the loop written with the code's `i`, `begin`, `count` (`splitU`, which also yields the three numbers of
+each piece's uid `<uid>.<count>.<begin>.<end>`) returns the pieces of `splitL`. -/
+theorem split_uid_pieces (short keepTail : List β → Bool) (obs : List (β × Bool)) :
+    (splitU short keepTail obs).map Prod.snd = splitL short keepTail obs :=
+  splitU_pieces short keepTail obs
+
+/-- T5 (uids): the numbers written into the uid of a returned piece are right: the piece is the run of observations
+`begin..end` (both included) of the track — what `findStopsLocal` reads back as `id_ini` / `id_end` — and `count`
+numbers the returned pieces 0, 1, 2, … without a gap, whatever was dropped by the limit. -/
+theorem split_uid_numbers (short keepTail : List β → Bool) (obs : List (β × Bool)) :
+    (∀ (count b e : Nat) (p : List β), ((count, b, e), p) ∈ splitU short keepTail obs →
+      p = ((obs.map Prod.fst).take (e + 1)).drop b) ∧
+    (splitU short keepTail obs).map (fun x => x.1.1) = List.range (splitU short keepTail obs).length :=
+  ⟨fun count b e p h => (splitU_ids short keepTail obs).1 ((count, b, e), p) h, (splitU_ids short keepTail obs).2⟩
 
 /-- T6: `Track.extract(a, b)` with `0 ≤ a ≤ b < size` is the run of observations `a..b`, both ends included. -/
 theorem extract_inclusive (l : List β) (a b : Nat) (hab : a ≤ b) (hb : b < l.length) :
@@ -320,6 +336,18 @@ theorem segmentation_history (fmax : α) (andMode : Bool) (t : FTrack α) (afs :
   simp only [segTrack, h1, h2, hr, setCol_setCol]
   rfl
 
+/-- T8 (collections): `TrackCollection.segmentation` is `segmentation()` on every track in turn: when each call
+succeeds, the collection holds the segmented tracks in the same order. -/
+theorem segmentation_collection (fmax : α) (andMode : Bool) (ts : List (FTrack α)) (afs : Arg String) (out : String)
+    (ths : Arg α) (f : FTrack α → FTrack α) (h : ∀ t ∈ ts, segTrack fmax andMode t afs out ths = .ok (f t)) :
+    segColl fmax andMode ts afs out ths = .ok (ts.map f) := by
+  unfold segColl
+  induction ts with
+  | nil => rfl
+  | cons t rest ih =>
+    rw [List.mapM_cons, h t List.mem_cons_self, ih (fun x hx => h x (List.mem_cons_of_mem _ hx))]
+    rfl
+
 omit [LE α] [DecidableLE α] [OfNat α 0] [OfNat α 1] in
 /-- T8 (argument forms): a bare feature name / a bare threshold is the one-element list. -/
 theorem listify_one {γ : Type} (a : γ) : (Arg.one a).listify = (Arg.many [a]).listify := rfl
@@ -343,6 +371,9 @@ example : marker (10 : Rat) true [2] [some 1, some 1] = none := by decide +kerne
 -- limit: the piece [0] (one observation) is short, [1,2] is kept, the closing piece [3] fails its own test
 example : splitL (fun p => decide (p.length < 2)) (fun p => decide (p.length ≥ 2))
     [(0, true), (1, false), (2, true), (3, false)] = [[1, 2]] := by decide
+-- uid numbers: marker vector 0 1 1 0 0, the one-observation piece [2] is short: count stays 1 for the closing piece
+example : splitU (fun p => decide (p.length < 2)) (fun _ => true)
+    [(10, false), (11, true), (12, true), (13, false), (14, false)] = [((0, 0, 1), [10, 11]), ((1, 3, 4), [13, 14])] := by decide
 -- the two facts `split_limit_zero` asks of the scalar type, on the rationals; `split_limit_pos` on a length function
 example : ¬ (0 : Rat) < 0 := by decide
 example : ((0 : Rat) == 0) = true := by decide
